@@ -1216,7 +1216,9 @@ def _check_subwav(out, L, w, rate, s, e, who):
 
 def _teq(a, b, exact):
     if exact:
-        return a == b
+        # equal, or equal up to the writer's snapping of numbers within 1e-14 (relative) of an integer to that
+        # integer and the one-ulp error of the float subtraction that produced the expected value (C01 accepts both)
+        return a == b or abs(a - b) <= 1e-13 * max(1.0, abs(a), abs(b))
     return abs(a - b) <= 1e-9
 
 
